@@ -395,4 +395,30 @@ def removeSession (o : Own) (h : Hnd) (id : Nat) (panics : Bool) : Own × Hnd ×
     let r := h.onRemove id panics
     (o', r.1, { conn := some k, handlerCb := r.2, sessionsCb := !(panics && r.2.isSome) })
 
+/-! ### kick requests (`ClientSessions.Kick` / `IKickHandler` / `ClientSessions.DoKick`, sessions.go) -/
+
+/-- what `ClientSessions.Kick(id)` does -/
+inductive KickOut
+  | miss                 -- nothing registered under the id: nothing happens
+  | close (k : Nat)      -- no kick handler: the default, `session.Kick()` = `Close()` of connection `k`, at once
+  | handler (id : Nat)   -- a custom `IKickHandler` was set: it is handed the id (the mmo gate: notice now, `DoKick` later)
+  deriving DecidableEq, Repr
+
+/-- `ClientSessions.Kick(id)`: `findSession`, then the default kick or the custom handler -/
+def Own.kick (o : Own) (kh : Bool) (id : Nat) : KickOut :=
+  match o.lookup id with
+  | none => .miss
+  | some k => if kh then .handler id else .close k
+
+/-- `ClientSessions.DoKick(id)`: `findSession`, then `session.Kick()` of what was found.  The table is NOT touched: the
+entry stays until the `RemoveSession` that the Close posts is run (it is what finds the FrontSession for the handler and
+the close callbacks).  Returns the table and the connection whose session is closed. -/
+def Own.doKick (o : Own) (id : Nat) : Own × Option Nat := (o, o.lookup id)
+
+/-- a `DoKick` that takes the entry out of the table itself before closing the session (defect witness) -/
+def Own.doKickDeleting (o : Own) (id : Nat) : Own × Option Nat :=
+  match o.lookup id with
+  | none => (o, none)
+  | some k => ({ o with live := o.live.filter (fun p => p.1 != id) }, some k)
+
 end Cell2v.Session
